@@ -125,8 +125,18 @@ def src_item(rel, fns, classes=(), consts=False):
             out += class_consts(tree, c)
         for cls, name in fns:
             out += fn_skeleton(tree, cls, name)
-        return 'list string', coq_list([qstr(s) + '%string' for s in out])
+        return 'list string', coq_list([qstr(s) + '%string' for s in chunked(out)])
     return item
+
+
+def chunked(lines, width=180):
+    """qstr keeps 200 characters of a string: a longer statement is continued on lines starting with `..`"""
+    out = []
+    for s in lines:
+        out.append(s[:width])
+        for k in range(width, len(s), width):
+            out.append('.. ' + s[k:k + width])
+    return out
 
 
 SPEC = [
@@ -157,6 +167,14 @@ SPEC = [
      (), False),
     ('sim_loop', 'eudoxia/simulator.py',
      [(None, 'compute_pipeline_stats'), (None, 'parse_args_with_defaults'), (None, 'run_simulator')], (), False),
+    ('csv_io', 'eudoxia/workload/csv_io.py',
+     [('CSVWorkloadReader', n) for n in ('__init__', 'batch_by_arrival', 'batch_by_pipeline',
+                                         'create_pipeline_from_batch', '_parse_row')] +
+     [('CSVWorkloadWriter', '__init__'), ('CSVWorkloadWriter', 'write_row'), ('WorkloadTraceGenerator', '__init__'),
+      ('WorkloadTraceGenerator', '_pipeline_to_rows'), ('WorkloadTraceGenerator', 'generate_rows')], (), False),
+    ('param_defaults', 'eudoxia/simulator.py', [(None, 'get_param_defaults')], (), False),
+    ('sched_registry', 'eudoxia/scheduler/decorators.py',
+     [(None, 'register_scheduler_init'), (None, 'register_scheduler')], (), True),
     ('trace_replay', 'eudoxia/workload/workload.py',
      [('WorkloadTrace', n) for n in ('__init__', 'advance_to_next_batch', 'get_next_batch_tick', 'run_one_tick')],
      (), False),
